@@ -255,9 +255,13 @@ CONFIG = [
                 'info_thread.stop': 'info_stop',
                 'results_thread.stop': 'results_stop',
                 'future.result': 'future_result',
+                'self.stats.update': 'stats_update',
                 'self._purge_results': 'purge',
                 'self._ensure_worker_processes_killed': 'kill_workers',
-                'concurrent.futures.as_completed': 'as_completed'}}),
+                'concurrent.futures.as_completed': 'as_completed'},
+      'cells': {"self.stats['jobs_completed']": 'jobs_completed',
+                "self.stats['total_jobs']": 'total_jobs',
+                "self.stats['results']": 'stats_results'}}),
     ('run', 'searchkit/search.py', 'FileSearcher.run',
      {'locks': COLL_LOCKS,
       'withs': {'multiprocessing.Manager': ('mgr_enter', 'mgr_exit')},
